@@ -184,9 +184,12 @@ enum Cyc {
     /// peer has just reset, the old stream is still held with unread frames): reading the old stream must not put
     /// anything on the wire under that id, and the request resolves with the peer's own answer
     BindOnReusedIdHeldReadsLater,
+    /// the same, but the application DROPS the old stream (unread) while the bind request is pending: the request must
+    /// not be touched, it resolves with the peer's own answer
+    BindOnReusedIdOldDropped,
 }
 
-const CYCS: [Cyc; 12] = [
+const CYCS: [Cyc; 13] = [
     Cyc::PeerOpenClean,
     Cyc::PeerOpenLocalAbort,
     Cyc::PeerOpenPeerReset,
@@ -199,6 +202,7 @@ const CYCS: [Cyc; 12] = [
     Cyc::LocalResetReopenWhileHeld,
     Cyc::PeerResetReopenHeldReadsLater,
     Cyc::BindOnReusedIdHeldReadsLater,
+    Cyc::BindOnReusedIdOldDropped,
 ];
 
 struct B {
@@ -273,6 +277,7 @@ fn exec_b(seq: &[Cyc], render: bool) -> RunOutput {
                 EndPlan::SeqKeep(vec![Op::Gate(pos as u8), Op::ReadToEof(4), Op::Park])
             }
             Cyc::BindOnReusedIdHeldReadsLater => EndPlan::SeqKeep(vec![Op::Gate(pos as u8), Op::ReadToEof(4), Op::Park]),
+            Cyc::BindOnReusedIdOldDropped => EndPlan::SeqKeep(vec![Op::Park]),
             Cyc::PeerResetReopenWhileHeld => {
                 // second incarnation (tag + 7 = 0x?f, used by no other variant): an ordinary exchange
                 plans.insert(tag + 7, EndPlan::SeqKeep(vec![Op::W(1), Op::ReadToEof(4), Op::Shutdown]));
@@ -381,6 +386,46 @@ fn exec_b(seq: &[Cyc], render: bool) -> RunOutput {
                     b.w.obs.borrow_mut().end(&format!("s{tag}.a"));
                 }
                 b.settle();
+            }
+            Cyc::BindOnReusedIdOldDropped => {
+                b.raw.send(&RFrame::Connect { id: F, rwnd: 2, port: 1, host: vec![tag] });
+                b.raw.send(&RFrame::Push { id: F, data: payload(tag, 1, 0, 1) });
+                b.raw.send(&RFrame::Reset { id: F });
+                b.settle();
+                {
+                    let mut q = b.w.rng_inject[0].borrow_mut();
+                    q.clear();
+                    q.extend([F; 2]);
+                }
+                let n = 0x400 + pos as u32;
+                b.w.spawn_bind_requester(0, n, 3, vec![tag, 0], 65535);
+                let got = b.settle();
+                let on_f = got.iter().any(|m| matches!(m, RMsg::Frame(RFrame::Bind { id: F, .. })));
+                if !on_f {
+                    b.v("reuse.local-id-not-free", format!("cycle {pos} ({c:?}): the generator proposes {F}, which the peer has reset and is free; frames seen {got:?}"));
+                }
+                // the application drops the OLD stream while the bind request is pending on its id
+                if let Some(i) = b.w.sim.tasks.iter().position(|x| x.name == format!("s{tag}.a") && !x.done) {
+                    b.w.sim.cancel_task(i);
+                    b.w.obs.borrow_mut().end(&format!("s{tag}.a"));
+                } else {
+                    b.v("harness.holder-missing", format!("cycle {pos}: the task holding the old stream is not there"));
+                }
+                let got = b.settle();
+                if on_f {
+                    b.wit |= W_BIND_ON_REUSED_ID;
+                    let res = b.w.obs.borrow().events.iter().find_map(|e| if let crate::apps::Ev::BindResult { side: 0, n: m, res } = e { (*m == n).then(|| res.clone()) } else { None });
+                    if !got.is_empty() || res.is_some() {
+                        b.v("abort.pending-request-disturbed", format!("cycle {pos} ({c:?}): dropping the OLD stream of flow {F} (already reset by the peer) while a bind request is pending on that id must neither put anything on the wire nor settle the request; frames {got:?}, request resolved {res:?}"));
+                    }
+                    // the peer application accepts: that, and nothing else, is the answer
+                    b.raw.send(&RFrame::Finish { id: F });
+                    let got = b.settle();
+                    let res = b.w.obs.borrow().events.iter().find_map(|e| if let crate::apps::Ev::BindResult { side: 0, n: m, res } = e { (*m == n).then(|| res.clone()) } else { None });
+                    if res != Some(Ok(true)) {
+                        b.v("bind.false-despite-accept", format!("cycle {pos} ({c:?}): the peer accepted the bind request on flow {F}; request_bind resolved {res:?} (frames after the accept: {got:?})"));
+                    }
+                }
             }
             Cyc::PeerResetReopenWhileHeld => {
                 b.raw.send(&RFrame::Connect { id: F, rwnd: 2, port: 1, host: vec![tag] });
@@ -684,7 +729,7 @@ pub fn run_reuse(args: &Args) -> Report {
     let pid = args.id.trim_end_matches('R').to_string();
     let mut rep = Report::new(&pid, &args.tier, "psim", "model_checking");
     let thorough = args.thorough();
-    let reuse = [Cyc::PeerResetReopenWhileHeld, Cyc::LocalResetReopenWhileHeld, Cyc::PeerResetReopenHeldReadsLater, Cyc::BindOnReusedIdHeldReadsLater];
+    let reuse = [Cyc::PeerResetReopenWhileHeld, Cyc::LocalResetReopenWhileHeld, Cyc::PeerResetReopenHeldReadsLater, Cyc::BindOnReusedIdHeldReadsLater, Cyc::BindOnReusedIdOldDropped];
     let mut seqs: Vec<Vec<Cyc>> = Vec::new();
     for c in reuse {
         seqs.push(vec![c]);
